@@ -1171,9 +1171,11 @@ Proof.
       { rewrite El1, El, <- app_assoc. reflexivity. }
       destruct Hr1 as [[-> [Hstb _]]|[[k [-> [Hstb _]]]|[_ [_ [Hcd _]]]]].
       3:{ rewrite Hst in Hcd. discriminate Hcd. }
-      * rewrite Hstb in H. cbn [x_state set_additional_raw] in H. rewrite Hst in H.
+      * cbn [x_state set_unflushed] in H.
+        rewrite Hstb in H. cbn [x_state set_additional_raw] in H. rewrite Hst in H.
         cbn [closing_done] in H. rewrite Bool.andb_false_r in H. cbn [andb] in H. inv H.
-        eexists. split; [exact Hlog|]. rewrite Hstb. cbn [x_state set_additional_raw].
+        eexists. split; [exact Hlog|]. cbn [x_state x_role x_additional set_unflushed].
+        rewrite Hstb. cbn [x_state set_additional_raw].
         splits; auto.
         -- left. exists true. split; [reflexivity|]. intros _. exact Haddb.
         -- right. exists a, (sent_frame (x_role x0) w0 a). splits; auto.
@@ -1181,7 +1183,8 @@ Proof.
         -- intros Hn. congruence.
         -- intros Hlt. apply head_wr; auto.
         -- intros _ Hn. congruence.
-      * inv H. eexists. split; [exact Hlog|]. rewrite Hstb. cbn [x_state set_additional_raw].
+      * inv H. eexists. split; [exact Hlog|]. cbn [x_state x_role x_additional set_unflushed].
+        rewrite Hstb. cbn [x_state set_additional_raw].
         splits; auto.
         -- right. exists k. reflexivity.
         -- right. exists a, (sent_frame (x_role x0) w0 a). splits; auto.
@@ -1670,7 +1673,7 @@ Proof.
                  queued (EvQueue (sent_frame (x_role x) w a) :: evs1 ++ more) = [sent_frame (x_role x) w a]).
       { intros more Hm. cbn [queued]. rewrite queued_app, !queued_only_writes by assumption. reflexivity. }
       destruct Hr1 as [[-> _]|[[k [-> _]]|[-> _]]].
-      * rewrite Haddb in H.
+      * cbn [x_additional x_role x_state x_codec set_unflushed] in H. rewrite Haddb in H.
         destruct (role_eqb (x_role xb) Server && closing_done (x_state xb) && true).
         -- destruct (write_out_buffer (x_codec xb) wb) as [[rw c2] w2] eqn:EO.
            apply write_out_buffer_spec in EO. destruct EO as [evs2 [El2 [_ [Hw2 _]]]].
